@@ -61,6 +61,7 @@ def _budget(n_chars, ver):
     return STEP_K.get(ver, 500) * (n_chars + 50)
 CO_ROOTS = ("nemoguardrails", "examples", "tests")
 FILE_NAME = "c13_case_file.co"
+_LOOP_TOOL = 4  # sys.monitoring tool id of the loop-frame analysis (vp.steps uses 3)
 
 
 def shipped_files(repo=None):
@@ -164,6 +165,7 @@ def setup_worker():
             if n.startswith("nemoguardrails"):
                 raise
     _W["codes"] = steps.install(mods)
+    _W["code_objects"] = [co for m_ in mods for co in steps._code_objects(m_)]
     # observation point: the loader's own call of parse_colang_file (looked up through module globals)
     real_parse = cfgmod.parse_colang_file
     _W["parse_calls"] = []
@@ -472,37 +474,57 @@ def _raiser(e):
     return os.path.basename(pick.filename), pick.name
 
 
+class _StopAnalysis(BaseException):
+    pass
+
+
 def _loop_frame(text, ver):
-    """Where a non-terminating parse loops: the parse is repeated under three
-    different budgets; the deepest repository frame (file:function) common to the
-    three stacks at the moment the budget fires is the frame that never returns."""
-    import traceback
+    """Where a non-terminating parse loops.  The parse is repeated with a second
+    PY_START observer: after the budget has run out once, the stack depth of every
+    function entry is recorded over a window of another budget+1000 entries.  The
+    shallowest entry seen in the window is a direct callee of the frame that never
+    returns; that caller (file:function) names the mechanism."""
+    import sys
 
-    from . import steps
-
+    mon = sys.monitoring
     b = _budget(len(text), ver)
-    chains = []
-    for budget in (b, b + 37, b + 131):
-        steps.start(budget)
-        try:
-            _W["parse"](FILE_NAME, text, version=ver)
-            return "outside-file-parse"
-        except steps.StepBudgetExceeded as e:
-            chains.append(
-                [
-                    "%s:%s" % (os.path.basename(f.filename), f.name)
-                    for f in traceback.extract_tb(e.__traceback__)
-                    if "/nemoguardrails/" in f.filename.replace("\\", "/") or "/lark/" in f.filename.replace("\\", "/")
-                ]
-            )
-        except Exception:
-            return "outside-file-parse"
-        finally:
-            steps.stop()
-    k = 0
-    while all(len(c) > k for c in chains) and len({c[k] for c in chains}) == 1:
-        k += 1
-    return chains[0][k - 1] if k else "unknown"
+    st = {"n": 0, "min": None, "name": "unknown"}
+
+    def cb(code, offset):
+        st["n"] += 1
+        n = st["n"]
+        if n <= b:
+            return
+        f = sys._getframe(1)
+        depth = 0
+        g = f
+        while g is not None:
+            depth += 1
+            g = g.f_back
+        if st["min"] is None or depth < st["min"]:
+            st["min"] = depth
+            c = f.f_back
+            st["name"] = "%s:%s" % (os.path.basename(c.f_code.co_filename), c.f_code.co_name) if c is not None else "unknown"
+        if n > 2 * b + 1000:
+            raise _StopAnalysis()
+
+    if not _W.get("loop_tool"):
+        mon.use_tool_id(_LOOP_TOOL, "vp-c13-loop")
+        _W["loop_tool"] = True
+    mon.register_callback(_LOOP_TOOL, mon.events.PY_START, cb)
+    for co in _W["code_objects"]:
+        mon.set_local_events(_LOOP_TOOL, co, mon.events.PY_START)
+    try:
+        _W["parse"](FILE_NAME, text, version=ver)
+        return "outside-file-parse"
+    except _StopAnalysis:
+        return st["name"]
+    except Exception:
+        return "outside-file-parse"
+    finally:
+        for co in _W["code_objects"]:
+            mon.set_local_events(_LOOP_TOOL, co, 0)
+        mon.register_callback(_LOOP_TOOL, mon.events.PY_START, None)
 
 
 def run_robust(case):
